@@ -191,14 +191,17 @@ func ruleC10Same(e *Env) {
 
 // matchOKBlock returns the block entered when the FindSubmatch result is non-empty.
 func matchOKBlock(call *ssa.Call) *ssa.BasicBlock {
+	// the successor entered when the match result is non-empty: len(p) compared with 0 or 1 in any spelling
+	// (== 0, != 0, > 0, >= 1, < 1, <= 0, mirrored), or p compared with nil
 	for _, r := range *call.Referrers() {
 		var cmp *ssa.BinOp
+		isLen := false
 		switch x := r.(type) {
 		case *ssa.Call: // len(p)
 			if bi, ok := x.Call.Value.(*ssa.Builtin); ok && bi.Name() == "len" {
 				for _, r2 := range *x.Referrers() {
 					if bo, ok := r2.(*ssa.BinOp); ok {
-						cmp = bo
+						cmp, isLen = bo, true
 					}
 				}
 			}
@@ -208,16 +211,48 @@ func matchOKBlock(call *ssa.Call) *ssa.BasicBlock {
 		if cmp == nil {
 			continue
 		}
-		for _, r3 := range *cmp.Referrers() {
-			iff, ok := r3.(*ssa.If)
-			if !ok {
-				continue
+		op := cmp.Op
+		other := cmp.Y
+		if _, lhsConst := cmp.X.(*ssa.Const); lhsConst { // mirror: constant on the right
+			other = cmp.X
+			switch op {
+			case token.LSS:
+				op = token.GTR
+			case token.GTR:
+				op = token.LSS
+			case token.LEQ:
+				op = token.GEQ
+			case token.GEQ:
+				op = token.LEQ
 			}
-			switch cmp.Op {
+		}
+		nonEmptyOnTrue, known := false, false
+		if isLen {
+			if k, ok := flow.ConstInt(other); ok {
+				switch {
+				case k == 0 && (op == token.NEQ || op == token.GTR), k == 1 && op == token.GEQ:
+					nonEmptyOnTrue, known = true, true
+				case k == 0 && (op == token.EQL || op == token.LEQ), k == 1 && op == token.LSS:
+					nonEmptyOnTrue, known = false, true
+				}
+			}
+		} else if flow.IsNilConst(other) {
+			switch op {
+			case token.NEQ:
+				nonEmptyOnTrue, known = true, true
 			case token.EQL:
+				nonEmptyOnTrue, known = false, true
+			}
+		}
+		if !known {
+			continue
+		}
+		for _, r3 := range *cmp.Referrers() {
+			if iff, ok := r3.(*ssa.If); ok {
+				if nonEmptyOnTrue {
+					return iff.Block().Succs[0]
+				}
 				return iff.Block().Succs[1]
-			case token.NEQ, token.GTR:
-				return iff.Block().Succs[0]
 			}
 		}
 	}
